@@ -1,8 +1,8 @@
 """C03 — Work-steal queues neither lose nor duplicate items."""
-from .. import queues
+from .. import queues, pwsq
 
 ID = "C03"
-PROPS = ["theories/Props/C03.vo"]
+PROPS = ["theories/Props/C03.vo", "theories/Props/PWS.vo"]
 CASES_MODULE = "Cases.C03"
 AREA = "ows"
 ISOLATE = True
@@ -46,6 +46,12 @@ def _outcome(o):
 
 
 def term(case, obs):
+    if pwsq.is_plain(case):
+        return "(@inr (qcase + ccase)%%type pcase %s)" % pwsq.term(case, obs)
+    return "(@inl (qcase + ccase)%%type pcase %s)" % term2(case, obs)
+
+
+def term2(case, obs):
     if case.get("area") != "conc":
         return "(@inl qcase ccase %s)" % queues.term(case, obs)
     o = obs[0] if obs and isinstance(obs[0], dict) else {"outcomes": [], "complete": False}
@@ -55,12 +61,16 @@ def term(case, obs):
 
 
 def nontrivial(case, obs, verdict):
+    if pwsq.is_plain(case):
+        return pwsq.nontrivial(case, obs, verdict)
     if case.get("area") == "conc":
         return bool(obs) and isinstance(obs[0], dict) and obs[0].get("executions", 0) >= 6
     return queues.nontrivial(case, obs, verdict)
 
 
 def distribution(results):
+    plain = [r for r in results if pwsq.is_plain(r[0])]
+    results = [r for r in results if not pwsq.is_plain(r[0])]
     seq = [(c, o, v) for c, o, v in results if c.get("area") != "conc"]
     d = queues.distribution(seq)
     conc = [(c, o, v) for c, o, v in results if c.get("area") == "conc"]
@@ -68,6 +78,7 @@ def distribution(results):
     d["interleavings_executed"] = sum(o[0].get("executions", 0) for c, o, v in conc if o and isinstance(o[0], dict))
     d["distinct_outcomes"] = sum(len(o[0].get("outcomes", [])) for c, o, v in conc if o and isinstance(o[0], dict))
     d["plain_queue_programs"] = sum(1 for c, o, v in conc if c["queue"] == "plain")
+    d["plain_queue"] = pwsq.distribution(plain)
     return d
 
 
@@ -84,13 +95,16 @@ def gen(rng, tier):
             cases.append(queues.random_history(rng, rng.randint(5, 40), style="ties", drain=True))
         else:
             cases.append(queues.random_history(rng, rng.randint(1, 25), drain=True, caps=[0, 1, 2]))
+    cases += pwsq.gen_c03(rng, tier)
     cases += [conc_case(rng, three=(tier != "quick")) for _ in range({"quick": 10, "thorough": 150, "search": 0}[tier])]
     return cases
 
-PINNED = ['C03_holds', 'C03_wf_needed', 'C03_conservation', 'C03_pop_at_most_once', 'C03_len_bound', 'C03_quiescent_exact', 'C03_outcome_ok', 'C03_all_outcomes_ok', 'C03_old_protocol_refuted']
+PINNED = ['C03_holds', 'C03_wf_needed', 'C03_conservation', 'C03_pop_at_most_once', 'C03_len_bound', 'C03_quiescent_exact', 'C03_outcome_ok', 'C03_all_outcomes_ok', 'C03_old_protocol_refuted', 'PWS_C03_holds', 'PWS_C03_wf_needed', 'PWS_C03_conservation', 'PWS_C03_at_most_once', 'PWS_C03_shared_len_exact', 'PWS_model_sync']
 LEVEL_TEXT = 'Theorem over ALL well-formed sequential histories (any number of handles, capacities, priorities, lengths) of the Gallina transcription of ordered_work_steal.rs: popped items are pending items and never repeat, an idle local pop implies nothing is pending (hence a drain returns exactly the pending multiset), shared/full length exact. Proved by a multiset-conservation invariant over every model step (overflow, steal, shared pop). The transcription is tied to /repo by lockstep histories on the real source (shim-included so the random steal start is an input). Concurrent part: a small-step model of the shared queue of BOTH queues (one step per atomic/injector access) with theorems for ANY number of threads, programs and schedules: conservation, pop-at-most-once, the counter never under-reports, exactness and exact drain at quiescence; tied to /repo by enumerating ALL interleavings of 2-3 real threads over the shim points of the real source and comparing the set of reachable outcomes with the set the model reaches, inside Coq.'
 LEVEL_NOTE = ("Trusted: Coq kernel + vm_compute; hand transcription of ordered_work_steal.rs (model OWS.v) validated on the "
               "sampled histories only; st3 rings / crossbeam injectors / skiplist modelled as FIFO lists and a sorted map; "
               "sequential histories (one call at a time); the steal start index is an input via the build.rs import "
-              "rewrite. The plain WorkStealQueue is modelled only in its shared half (Conc.v); its local rings are not modelled yet. The interleaving enumeration serialises real threads at the shim's points: atomicity of each crossbeam/st3 call is assumed. No axioms (closed under the global context).")
+              "rewrite. The interleaving enumeration serialises real threads at the shim's points: atomicity of each crossbeam/st3 call is assumed. No axioms (closed under the global context).")
 TECHNIQUE = "Coq proof (invariants over all histories of a Gallina model) + lockstep differential correspondence inside Coq"
+
+LEVEL_TEXT += ' The plain WorkStealQueue (work_steal.rs: one injector, st3 rings, push overflow of half a ring, steal of half of a victim, shared-first tick every 61st pop) has its own sequential model (Queue/PWS.v) with the same theorems for every well-formed history (conservation, at-most-once, shared length exact) and the same lockstep correspondence on the shim-included real source.'
